@@ -102,10 +102,25 @@ func ReceiveFeedback(item *models.Item) error {
 	}
 
 	item.SetSource(models.ItemSourceFeedback)
-	_, loaded := globalReactor.stateTable.Swap(item.GetID(), item)
-	if !loaded {
-		// An item sent to the feedback channel should be present on the state table, if not present reactor should error out
-		return ErrFeedbackItemNotPresent
+	for {
+		// Only replace the entry of a tracked seed: an unknown seed must not end up in the state table
+		old, loaded := globalReactor.stateTable.Load(item.GetID())
+		if !loaded {
+			// An item sent to the feedback channel should be present on the state table, if not present reactor should error out
+			return ErrFeedbackItemNotPresent
+		}
+		if globalReactor.stateTable.CompareAndSwap(item.GetID(), old, item) {
+			break
+		}
+	}
+
+	// A stopping or frozen reactor accepts nothing (a select picks randomly among ready cases, so check first)
+	select {
+	case <-globalReactor.ctx.Done():
+		return ErrReactorShuttingDown
+	case <-globalReactor.freezeCtx.Done():
+		return ErrReactorFrozen
+	default:
 	}
 	verifhook.At("reactor.feedback", item.GetID())
 	select {
@@ -125,6 +140,17 @@ func ReceiveInsert(item *models.Item) error {
 		return ErrReactorNotInitialized
 	}
 
+	// A stopping or frozen reactor accepts nothing (a select picks randomly among ready cases, so check first)
+	select {
+	case <-globalReactor.ctx.Done():
+		logger.Debug("received item on shutting down reactor", "item", item.GetShortID())
+		return ErrReactorShuttingDown
+	case <-globalReactor.freezeCtx.Done():
+		logger.Debug("received item on frozen reactor", "item", item.GetShortID())
+		return ErrReactorFrozen
+	default:
+	}
+
 	select {
 	case <-globalReactor.ctx.Done():
 		logger.Debug("received item on shutting down reactor", "item", item.GetShortID())
@@ -133,6 +159,16 @@ func ReceiveInsert(item *models.Item) error {
 		logger.Debug("received item on frozen reactor", "item", item.GetShortID())
 		return ErrReactorFrozen
 	case globalReactor.tokenPool <- struct{}{}:
+		// The reactor may have been stopped or frozen while we were waiting for the token: give it back
+		select {
+		case <-globalReactor.ctx.Done():
+			<-globalReactor.tokenPool
+			return ErrReactorShuttingDown
+		case <-globalReactor.freezeCtx.Done():
+			<-globalReactor.tokenPool
+			return ErrReactorFrozen
+		default:
+		}
 		logger.Debug("received item", "item", item.GetShortID())
 		if !item.IsSeed() {
 			spew.Dump(item)
